@@ -1,7 +1,7 @@
 (* C07 -- atomicity is inherited and implicit skipping applied exactly as in pest. Statements only. *)
 From Coq Require Import List NArith.
 From PT Require Import Model.Base Model.Stack Model.Texpr Model.Sem Model.Aparse Model.Ast Model.Translate Model.PegSpec Model.GenEnv.
-From PT Require Import Proofs.GenWitness Proofs.SkipPositions Proofs.RepSpec.
+From PT Require Import Proofs.GenWitness Proofs.SkipPositions Proofs.RepSpec Proofs.PegSimBase Proofs.PegSimFwd.
 Import ListNotations.
 
 (* generator: every sequence and repetition of a rule's translated body carries the skip token of the DEFINING
@@ -75,6 +75,23 @@ Theorem C07_rep_gives_back : forall E fuel inh k mn mx e pos stk,
   end.
 Proof. exact aparse_rep_bounds. Qed.
 Print Assumptions C07_rep_gives_back.
+
+(* "exactly as in pest": the invariant that carries the whole comparison with pest's DYNAMIC atomicity.  [ctx e k inh at_]
+   says the typed skip flag (the const argument k resolved against the inherited value) is on exactly when pest's
+   atomicity state is NonAtomic (or the expression cannot tell).  For every expression of every rule of a grammar whose
+   WHITESPACE / COMMENT cannot tell ([ws_ok]), in every such related context, whatever pest's PEG semantics answers
+   (Model/PegSpec.v: skips between sequence elements and between repetition iterations only in NonAtomic state, @ and $
+   switch it off for everything reached through normal and silent rules, ! switches it back on, WHITESPACE / COMMENT forced
+   atomic) the translated type answers too, with the same offset and stack -- the relation is re-established at every rule
+   call by the generator's choice of 0 / 1 / INHERITED (call_ctx). *)
+Theorem C07_atomicity_simulation : forall g eoi I pred,
+  ws_ok g = true -> eoi_fresh eoi g = true -> forall n,
+  forall at_ la e pos stk k inh,
+  ctx e k inh at_ -> refs_ok eoi g e = true ->
+  exists m, forall m', m <= m' ->
+    fsim (peg (penv_of eoi g I pred) n at_ la e pos stk) (aparse (env_of eoi g I pred) m' inh (tr eoi k e) pos stk).
+Proof. exact (fun g eoi I pred Hws Heoi n => proj1 (peg_fwd g eoi I pred Hws Heoi n)). Qed.
+Print Assumptions C07_atomicity_simulation.
 
 (* known finding (class WsNonAtomic): referenced explicitly, WHITESPACE is NOT matched atomically *)
 Theorem C07_refuted_ws :
